@@ -244,6 +244,9 @@ def real_family(rep, rnd, n):
 def gen(rnd, long_fail=False):
     mn = Fraction(rnd.choice([0, 1, 5, 5, 10, Fraction(1, 2), Fraction(5, 4)]))
     mx = mn + Fraction(rnd.choice([0, 1, 25, 25, 60, Fraction(1, 4), 300, 3600]))
+    if long_fail:
+        # a day, a week, "never give up": the limit keeps doubling until it reaches max_wait - min_wait
+        mx = mn + Fraction(rnd.choice([3600, 86400, 7 * 86400, 2 ** 40]))
     n = rnd.choice([1, 2, 3, 5, 10, 20, 40])
     names = list(OUTCOMES)
     if long_fail:
